@@ -159,6 +159,10 @@ pub struct Inc {
     explicit: bool,
     /// import sessions opened on this stream so far (= session id of the next one)
     sessions: u64,
+    /// the stream task / the application's ack call was released into `Acked::ack` while the other
+    /// acker held the permit and has not reached a schedule point since (it waits in `acquire`)
+    st_blocked: bool,
+    app_blocked: bool,
 }
 
 impl Inc {
@@ -252,6 +256,8 @@ impl Inc {
             pre,
             explicit: matches!(policy, AckPolicy::Explicit),
             sessions: 0,
+            st_blocked: false,
+            app_blocked: false,
         };
         if controlled {
             // the stream task parks at the first replayed operation or at the top of its loop
@@ -313,6 +319,50 @@ impl Inc {
             },
             name = self.gate.wait_parked(proc) => Ok(Advance::Parked(name?)),
         }
+    }
+
+    /// Bounded look at a process that is expected to wait for the Acked permit: on the code as it
+    /// is it never arrives (it is blocked until the holder, which we keep parked, releases), so
+    /// this can only ever miss an arrival, never invent one.
+    async fn probe_parked(&self, proc: &str) -> Option<&'static str> {
+        for _ in 0..60 {
+            if let Some(p) = self.gate.parked(proc) {
+                return Some(p);
+            }
+            tokio::task::yield_now().await;
+            tokio::time::sleep(std::time::Duration::from_millis(4)).await;
+        }
+        self.gate.parked(proc)
+    }
+
+    /// After the holder of the permit is through: an acker that waited for the permit now gets it.
+    async fn resume_blocked(&mut self, out: &mut serde_json::Map<String, Value>) -> Result<(), String> {
+        if self.st_blocked {
+            self.gate.wait_parked("st").await?;
+            self.st_blocked = false;
+        }
+        if self.app_blocked {
+            let mut h = self.app_task.take().ok_or("blocked ack call lost")?;
+            let adv = match self.advance("app", &mut h).await {
+                Ok(a) => a,
+                Err(e) => {
+                    self.app_task = Some(h);
+                    return Err(e);
+                }
+            };
+            self.app_blocked = false;
+            match adv {
+                Advance::Parked(_) => {
+                    self.app_task = Some(h);
+                    out.insert("res".into(), json!("pending"));
+                }
+                Advance::Finished((rx, r)) => {
+                    self.rx = Some(rx);
+                    out.insert("res".into(), json!(ack_result(&r)));
+                }
+            }
+        }
+        Ok(())
     }
 
     async fn step_st(&self) -> Result<(), String> {
@@ -388,7 +438,7 @@ impl Inc {
                 match self.advance("pub", &mut h).await? {
                     Advance::Parked(p) => return Err(format!("publish parked again at {p}")),
                     Advance::Finished(r) => {
-                        out.insert("res".into(), json!(if r.is_ok() { "ok" } else { "error" }));
+                        out.insert("pubres".into(), json!(if r.is_ok() { "ok" } else { "error" }));
                         if let Err(e) = r {
                             out.insert("error".into(), json!(e));
                         }
@@ -404,9 +454,23 @@ impl Inc {
                     .await
                     .map_err(|e| format!("forge (foreign topic): {e}"))?;
             }
-            "TakePublished" | "PipelineProcess" | "SkipAck" | "AckRead" | "AckWriteTx" | "AckCommit"
-            | "Deliver" | "ReplayEnd" => {
+            "TakePublished" | "PipelineProcess" | "SkipAck" | "AckRead" | "AckWriteTx" | "Deliver" | "ReplayEnd" => {
                 self.step_st().await?;
+            }
+            "AckCommit" => {
+                self.step_st().await?;
+                self.resume_blocked(&mut out).await?;
+            }
+            "AckEnter" => {
+                let expect_blocked = cmd["post"]["stpc"] == "ackblocked" || arg["maybe_blocked"] == true;
+                if expect_blocked {
+                    if !self.gate.release("st") {
+                        return Err("lockstep: stream task is not parked".into());
+                    }
+                    self.st_blocked = self.probe_parked("st").await.is_none();
+                } else {
+                    self.step_st().await?;
+                }
             }
             "TakeImported" => {
                 if self.imp_tx.is_none() {
@@ -431,25 +495,45 @@ impl Inc {
                         (rx, r)
                     })
                     .await;
-                let adv = match self.advance("app", &mut h).await {
-                    Ok(a) => a,
-                    Err(e) => {
-                        self.app_task = Some(h);
-                        return Err(e);
+                let expect_blocked = cmd["post"]["apppc"] == "ackblocked" || arg["maybe_blocked"] == true;
+                let mut waiting = false;
+                if expect_blocked {
+                    // bounded look: neither parked nor finished = waiting for the permit
+                    waiting = true;
+                    for _ in 0..60 {
+                        if self.gate.parked("app").is_some() || h.is_finished() {
+                            waiting = false;
+                            break;
+                        }
+                        tokio::task::yield_now().await;
+                        tokio::time::sleep(std::time::Duration::from_millis(4)).await;
                     }
-                };
-                match adv {
-                    Advance::Parked(_) => {
-                        self.app_task = Some(h);
-                        out.insert("res".into(), json!("pending"));
-                    }
-                    Advance::Finished((rx, r)) => {
-                        self.rx = Some(rx);
-                        out.insert("res".into(), json!(ack_result(&r)));
+                }
+                if waiting {
+                    self.app_task = Some(h);
+                    self.app_blocked = true;
+                    out.insert("res".into(), json!("pending"));
+                } else {
+                    let adv = match self.advance("app", &mut h).await {
+                        Ok(a) => a,
+                        Err(e) => {
+                            self.app_task = Some(h);
+                            return Err(e);
+                        }
+                    };
+                    match adv {
+                        Advance::Parked(_) => {
+                            self.app_task = Some(h);
+                            out.insert("res".into(), json!("pending"));
+                        }
+                        Advance::Finished((rx, r)) => {
+                            self.rx = Some(rx);
+                            out.insert("res".into(), json!(ack_result(&r)));
+                        }
                     }
                 }
             }
-            "AppAckWriteTx" => {
+            "AppAckRead" | "AppAckWriteTx" => {
                 let mut h = self.app_task.take().ok_or("no ack call in flight")?;
                 self.gate.release("app");
                 let adv = match self.advance("app", &mut h).await {
@@ -487,6 +571,8 @@ impl Inc {
                         out.insert("res".into(), json!(ack_result(&r)));
                     }
                 }
+                let mut ignore = serde_json::Map::new();
+                self.resume_blocked(&mut ignore).await?;
             }
             "Observe" => {}
             other => return Err(format!("unknown action {other}")),
@@ -620,6 +706,8 @@ impl Inc {
     pub async fn settle(&mut self) -> Result<Value, String> {
         self.gate.set_free();
         self.controlled = false;
+        self.st_blocked = false;
+        self.app_blocked = false;
         if let Some(h) = self.app_task.take() {
             match tokio::time::timeout(STUCK_AFTER, h).await {
                 Ok(Ok((rx, _))) => self.rx = Some(rx),
@@ -691,13 +779,26 @@ impl Inc {
                 }
                 8 => {
                     if !received.is_empty() && self.explicit {
-                        let op = rng.pick(&received).clone();
-                        // a received operation may have been pruned from its log meanwhile
-                        if let Ok(hash) = self.hash_of(&op).await {
-                            let r = rx.ack(hash).await;
-                            emit(json!({"p": "ack", "op": op, "res": ack_result(&r)}));
-                        } else {
-                            received.retain(|o| o != &op);
+                        // one ack, or several at once (join_all): different logs and one log out of
+                        // order both occur, the picks are random
+                        let k = if rng.chance(1, 2) { 1 } else { rng.range(2, 4) as usize };
+                        let mut batch: Vec<(Value, Hash)> = Vec::new();
+                        for _ in 0..k {
+                            if received.is_empty() {
+                                break;
+                            }
+                            let op = rng.pick(&received).clone();
+                            // a received operation may have been pruned from its log meanwhile
+                            match self.hash_of(&op).await {
+                                Ok(hash) => batch.push((op, hash)),
+                                Err(_) => received.retain(|o| o != &op),
+                            }
+                        }
+                        let rx_ref = &rx;
+                        let results =
+                            futures_util::future::join_all(batch.iter().map(|(_, h)| rx_ref.ack(*h))).await;
+                        for ((op, _), r) in batch.iter().zip(results.iter()) {
+                            emit(json!({"p": "ack", "op": op, "res": ack_result(r), "batch": batch.len()}));
                         }
                     }
                 }
@@ -726,7 +827,11 @@ impl Inc {
 
     /// Committed state of the database, read through the store's public query API.
     pub async fn observe(&self) -> Result<Value, String> {
-        observe_store(&self.store, &self.ids, &self.gate).await
+        let mut v = observe_store(&self.store, &self.ids, &self.gate).await?;
+        if let Some(m) = v.as_object_mut() {
+            m.insert("blocked".into(), json!({"st": self.st_blocked, "app": self.app_blocked}));
+        }
+        Ok(v)
     }
 }
 
